@@ -220,7 +220,7 @@ Print Assumptions convert_rows_in_use_refuted.
 
 (* ---------------------------------------------------------------- the vnacal_new_t allocation skeleton (Mem/NewAlloc.v) *)
 Require Import Lia.
-Require Import LV.Mem.NewAlloc LV.Mem.NewAllocProofs.
+Require Import LV.Mem.NewAlloc LV.Mem.NewAllocProofs LV.Mem.NewHoldProofs.
 
 (* The whole life cycle: for every set of parameters in creation order, every list of calls (vnacal_new_alloc, set frequency
    vector, add with any argument class / parameter list / equation shape, vnacal_new_set_m_error, vnacal_new_solve with any
@@ -230,13 +230,23 @@ Theorem new_no_fault : forall ks ops k f, cfg_ok ks -> whistory NFixed ks ops (s
 Proof. exact new_no_fault_lemma. Qed.
 Print Assumptions new_no_fault.
 
-(* ... and nothing is left in the ledger, provided every hold a vnacal_new_t took on a parameter was given back
-   (the last component of the result).  PARTIAL: the hold balance itself (held = all zero for NFixed) is not proved; the tie
-   compares the hold counts of every parameter after every op. *)
-Theorem new_no_leak_partial : forall ks ops k os held s', cfg_ok ks ->
-  whistory NFixed ks ops (start k) = Ok ((os, held), s') -> (forall h, In h held -> h = 0%nat) -> live s' = [].
-Proof. exact new_no_leak_lemma. Qed.
-Print Assumptions new_no_leak_partial.
+(* ... nothing is left in the ledger, and every hold a vnacal_new_t took on a parameter has been given back (the last
+   component of the result of [whistory] = the hold counts after vnacal_free) *)
+Theorem new_no_leak : forall ks ops k os held s', cfg_ok ks ->
+  whistory NFixed ks ops (start k) = Ok ((os, held), s') -> live s' = [] /\ forall h, In h held -> h = 0%nat.
+Proof. exact new_no_leak_full_lemma. Qed.
+Print Assumptions new_no_leak.
+
+(* the hold balance behind it: in every reachable world the holds of parameter j equal the number of hash nodes with key j
+   over the whole ring ([HBW], preserved by every call for every fault point: hbw_step), so vnacal_free returns them all *)
+Theorem new_hold_balance : forall ks ops k os held s',
+  whistory NFixed ks ops (start k) = Ok ((os, held), s') -> forall h, In h held -> h = 0%nat.
+Proof. exact new_hold_balance_lemma. Qed.
+Print Assumptions new_hold_balance.
+
+Theorem new_hold_invariant_satisfiable : exists w, HBW w /\ hcount (w_prm w) 3 = 2%nat /\ length (w_new w) = 2%nat.
+Proof. exact hbw_satisfiable. Qed.
+Print Assumptions new_hold_invariant_satisfiable.
 
 (* hypothesis and conclusion are met by a concrete history (two parameters, a calibration, a standard, measurement errors, a solve) *)
 Example new_history_satisfiable :
